@@ -18,7 +18,8 @@ import io
 
 from dsim import domworld, gen, pipe
 from dsim import refmodel as R
-from dsim.actors import exc_summary, sized_reader_cls
+from dsim.actors import (LOAD_STREAMS, exc_summary, load_stream,
+                         sized_reader_cls)
 from dsim.world import SimEventCap, SimHang, SimReadHandle
 
 ID = 'C06'
@@ -83,6 +84,7 @@ def generate(rng, tier, cls):
             'via': rng.choice(['from_stream', 'from_stream', 'from_bytes',
                                'subclass']),
             'reuse': rng.chance(0.12),
+            'stream': rng.choice(LOAD_STREAMS),
             'block_size': rng.choice([None, None, 1, 17, 97])}
 
 
@@ -96,7 +98,7 @@ def contents(recs):
     return out
 
 
-def load(L, w, data, via, bs, reuse=False):
+def load(L, w, data, via, bs, reuse=False, stream=None):
     if reuse:
         # one DiffXDOMReader object that already went through a parse of a
         # damaged copy (failed, or ended early)
@@ -113,7 +115,7 @@ def load(L, w, data, via, bs, reuse=False):
         except Exception:
             pass
 
-        h = SimReadHandle(w, data, 'editor')
+        h = load_stream(w, stream, data, 'editor')
         return rd.parse(h), h
 
     if via == 'from_bytes':
@@ -122,7 +124,7 @@ def load(L, w, data, via, bs, reuse=False):
         return domworld.diffx_subclass(
             L, len(data) % 2 == 0).from_bytes(data), None
 
-    h = SimReadHandle(w, data, 'editor')
+    h = load_stream(w, stream, data, 'editor')
 
     if bs:
         rd = L.DiffXDOMReader(L.DiffX)
@@ -199,7 +201,7 @@ def execute(scn, L):
 
             try:
                 load(L, w, data, scn.get('via', 'from_stream'),
-                     scn.get('block_size'))
+                     scn.get('block_size'), stream=scn.get('stream'))
             except Exception as e2:
                 es = exc_summary(e2, L)
                 out.violate('C06.canonical-not-loadable', '%s:%s' % (
@@ -229,7 +231,7 @@ def execute(scn, L):
         out.probe('dom_reader_and_writer_objects_reused')
 
     try:
-        tree, h = load(L, w, data, via, bs, reuse)
+        tree, h = load(L, w, data, via, bs, reuse, scn.get('stream'))
     except Exception as e:
         es = exc_summary(e, L)
 
